@@ -205,6 +205,9 @@ func writeEvidence(s *Session, verif, prop, tier string, seed int, cfg PropConfi
 	for _, a := range imprecise {
 		assumptions = append(assumptions, "over-approximation: "+a)
 	}
+	if s.noFrame {
+		assumptions = append(assumptions, "no_frame: the modifies clauses of the functions under contract are assumed, not checked, for this property (their bodies call wide library code; the obligations proved are the postconditions and call-site clauses)")
+	}
 	assumptions = append(assumptions,
 		"pointer parameters and receivers are non-nil unless declared nullable",
 		"integers: mathematical Int with explicit Go wrap-around on every fixed-width operation; int is 64-bit",
